@@ -34,15 +34,50 @@
 (*                        tracker/progress.go MaybeUpdate, MaybeDecrTo,    *)
 (*                        BecomeProbe/Replicate, IsPaused;                 *)
 (*                        quorum/majority.go CommittedIndex, VoteResult    *)
+(*   ProposeConfChange   rawnode.go ProposeConfChange 93-99 -> raft.go     *)
+(*                        stepLeader MsgProp 1044-1080 (pendingConfIndex / *)
+(*                        alreadyPending refusal: the entry is replaced by *)
+(*                        an empty normal one), becomeLeader 758-763,      *)
+(*                        reset 633                                        *)
+(*   applying a conf     raftsim ready() -> rawnode.go ApplyConfChange     *)
+(*   change               104-107 -> raft.go applyConfChange 1637-1657,    *)
+(*                        switchToConfig 1665-1717 (a leader that removed  *)
+(*                        itself stays leader, without Progress;           *)
+(*                        maybeCommit / bcastAppend or probes under the    *)
+(*                        new configuration); confchange/confchange.go     *)
+(*                        Simple 132-149, apply 154-178, makeVoter         *)
+(*                        182-193, remove 235-248, initProgress 251-277;   *)
+(*                        tracker/tracker.go Committed 177-179, TallyVotes *)
+(*                        267-288; quorum/majority.go CommittedIndex,      *)
+(*                        VoteResult over the node's OWN configuration;    *)
+(*                        promotable 1632-1635 (hup 784-787); the refusal  *)
+(*                        of responses from unknown peers rawnode.go Step  *)
+(*                        110-119; stepLeader 1109-1113                    *)
 (*   Ready cycle         rawnode.go Ready/Advance, raft.go advance         *)
 (*                        546-597, node.go MustSync 592-599                *)
 (*   Crash / Restart     the harness' disk (synced vs unsynced HardState), *)
-(*                        raft.go newRaft 318-370, loadState 1719-1726     *)
+(*                        raft.go newRaft 318-370 (configuration restored  *)
+(*                        from Storage.InitialState 323, 346-353: the      *)
+(*                        genesis one in raftsim, then every committed     *)
+(*                        conf change is applied again), loadState         *)
+(*                        1719-1726                                        *)
 (*                                                                         *)
-(* Scope: fixed voter set Server (no membership change, no snapshots, no   *)
-(* CheckQuorum / ReadIndex / leader transfer in THIS module; those are     *)
+(* Scope: no snapshots, no CheckQuorum / ReadIndex / leader transfer, no   *)
+(* joint configurations, learners or auto-leave in THIS module; those are  *)
 (* exercised on the real code by raftsim's random scheduler and judged by  *)
-(* RaftObs.tla).  PreVote (Config.PreVote, with CheckQuorum off, i.e. no   *)
+(* RaftObs.tla.  SIMPLE membership changes ARE modelled (CONSTANT          *)
+(* ConfChange = TRUE; FALSE = the voter set is Server for ever, exactly    *)
+(* the module without them): one voter added or removed per change         *)
+(* (raftpb.ConfChange, or a ConfChangeV2 with one change and the automatic *)
+(* transition), proposed on a leader (ProposeConfChange), kept in the log  *)
+(* as an entry of its own kind (field c), and applied by every node when   *)
+(* the entry is committed - inside the Ready cycle of the action that      *)
+(* commits it, as raftsim does.  Every node has its own current            *)
+(* configuration cfg[i]; it counts votes and acknowledgements over THAT    *)
+(* set, sends to THAT set, and does not campaign when it is not in it.     *)
+(* The instances MC_Raft3_conf*.cfg check it (three nodes, InitVoters of   *)
+(* them voters at the start), raftsim replays / trace-validates it.        *)
+(* PreVote (Config.PreVote, with CheckQuorum off, i.e. no   *)
 (* leader lease) IS modelled: CONSTANT PreVote = TRUE gives the two-phase  *)
 (* election (role "P" = StatePreCandidate, messages "PreVote" and          *)
 (* "PreVoteResp"), PreVote = FALSE the plain one; the instances            *)
@@ -76,11 +111,26 @@ CONSTANTS Server,            \* 1..N, N >= 2
           W_HeartbeatCommitUnbounded, \* raft.go sendHeartbeat: commit not capped by Match
           W_QuorumMinusOne,         \* quorum/majority.go: q = n/2 instead of n/2+1
           PreVote,                  \* raft.Config.PreVote (BOOLEAN): two-phase election; FALSE = exactly the module without it
-          W_PreVoteRespCountsAsVote \* raft.go stepCandidate 1394-1399/1413: the per-state filter `case myVoteRespType` removed, i.e.
+          W_PreVoteRespCountsAsVote,\* raft.go stepCandidate 1394-1399/1413: the per-state filter `case myVoteRespType` removed, i.e.
                                     \* a (pre-)candidate tallies MsgVoteResp and MsgPreVoteResp alike
+          ConfChange,               \* BOOLEAN: simple membership changes (one voter added / removed at a time) are part of the model;
+                                    \* FALSE = exactly the module without them (every node's configuration is Server for ever)
+          InitVoters,               \* the genesis configuration every node boots with (raftsim: disk.boot; Server when ~ConfChange)
+          AddVoters, RemoveVoters,  \* the changes ProposeConfChange explores: ConfChangeAddNode j for j \in AddVoters,
+                                    \* ConfChangeRemoveNode j for j \in RemoveVoters (written j and -j below)
+          MaxConfChanges,           \* conf changes accepted by a leader (appended as conf-change entries)
+          MaxConfRefusals,          \* conf changes a leader refuses because another one may be unapplied (appended as empty entries)
+          W_ConfChangeNoPendingCheck, \* raft.go stepLeader MsgProp 1060-1075: the `alreadyPending` refusal removed, i.e. a conf change
+                                    \* is appended although an earlier one may still be unapplied
+          W_AddedVoterCaughtUp      \* confchange/confchange.go initProgress 266-267: the Progress of a newly added voter starts
+                                    \* with Match = LastIndex (instead of 0), i.e. it counts as having acknowledged the leader's log
 
 ASSUME Cardinality(Server) >= 2
 ASSUME PreVote \in BOOLEAN
+ASSUME ConfChange \in BOOLEAN /\ InitVoters \subseteq Server /\ InitVoters # {}
+ASSUME ~ConfChange => InitVoters = Server
+ASSUME AddVoters \subseteq Server /\ RemoveVoters \subseteq Server
+ConfChanges == AddVoters \cup {0 - j : j \in RemoveVoters}
 
 VARIABLES role,     \* "F" follower, "P" pre-candidate (PreVote only), "C" candidate, "L" leader, "D" down (crashed)
           term, vote, lead, log, commit, applied,
@@ -88,20 +138,24 @@ VARIABLES role,     \* "F" follower, "P" pre-candidate (PreVote only), "C" candi
           sc,       \* commit value of the last SYNCED HardState write (MustSync)
           votes,    \* (pre-)candidate: j -> "n" none, "y" granted, "r" rejected (tracker.Votes; reset by every becomeX)
           pr,       \* leader: j -> [match, next, state, probesent]
+          cfg,      \* the node's current configuration: the set of voters (tracker.Config.Voters[0]; = the ids that have a Progress).
+                    \* Switched when a committed conf-change entry is APPLIED (rawnode.go ApplyConfChange 104-107), never before
+          pci,      \* leader: raft.pendingConfIndex (0 elsewhere: reset 633)
           net,      \* bag of messages: message -> count
-          nprop, ncrash, ndrop, ndup, nhb,   \* budgets
+          nprop, ncrash, ndrop, ndup, nhb, nconf, nref,   \* budgets
           elected,  \* history: set of <<term, id>>
           gc,       \* history: global committed prefix
           gct,      \* history: gct[k] = term in which gc[k] became committed (term of the first node whose commit covered k)
           lcok,     \* history: every leader elected in term T held every entry committed in a term < T
           act       \* the action that produced this state (output only; not in VIEW)
 
-nodeVars == <<role, term, vote, lead, log, commit, applied, hs, sc, votes, pr>>
-vars == <<role, term, vote, lead, log, commit, applied, hs, sc, votes, pr, net, nprop, ncrash, ndrop, ndup, nhb, elected, gc, gct, lcok, act>>
-view == <<role, term, vote, lead, log, commit, applied, hs, sc, votes, pr, net, nprop, ncrash, ndrop, ndup, nhb, elected, gc, gct, lcok>>
+nodeVars == <<role, term, vote, lead, log, commit, applied, hs, sc, votes, pr, cfg, pci>>
+vars == <<role, term, vote, lead, log, commit, applied, hs, sc, votes, pr, cfg, pci, net, nprop, ncrash, ndrop, ndup, nhb, nconf, nref, elected, gc, gct, lcok, act>>
+view == <<role, term, vote, lead, log, commit, applied, hs, sc, votes, pr, cfg, pci, net, nprop, ncrash, ndrop, ndup, nhb, nconf, nref, elected, gc, gct, lcok>>
 
 N == Cardinality(Server)
-Quorum == IF W_QuorumMinusOne THEN N \div 2 ELSE N \div 2 + 1
+(* quorum/majority.go: q = len(c)/2 + 1 over the voters of the configuration the node currently uses *)
+QuorumOf(V) == IF W_QuorumMinusOne THEN Cardinality(V) \div 2 ELSE Cardinality(V) \div 2 + 1
 Max(S) == CHOOSE x \in S : \A y \in S : y <= x
 Min(S) == CHOOSE x \in S : \A y \in S : y >= x
 Max2(a, b) == IF a > b THEN a ELSE b
@@ -109,7 +163,8 @@ Min2(a, b) == IF a < b THEN a ELSE b
 
 Probe == "StateProbe"
 Replicate == "StateReplicate"
-NoPr == [j \in Server |-> [match |-> 0, next |-> 1, state |-> Probe, probesent |-> FALSE]]
+NoPrE == [match |-> 0, next |-> 1, state |-> Probe, probesent |-> FALSE]   \* also the value kept for ids without a Progress
+NoPr == [j \in Server |-> NoPrE]
 NoVotes == [j \in Server |-> "n"]
 
 (* ------------------------------ the log ------------------------------- *)
@@ -171,20 +226,30 @@ LoopSend(i, lg, cmt, tm, p, j) ==      \* for r.maybeSendAppend(m.From, false) {
 RECURSIVE Concat(_, _)
 Concat(f, S) == IF S = {} THEN <<>> ELSE LET x == Min(S) IN f[x] \o Concat(f, S \ {x})
 
-(* raft.go bcastAppend: sendAppend (sendIfEmpty) to every peer; returns new progress map and messages *)
-Bcast(i, lg, cmt, tm, P) ==
-    LET R == [j \in Server \ {i} |-> MaybeSendApp(i, lg, cmt, tm, P[j], j, TRUE)]
-    IN [P |-> [j \in Server |-> IF j = i THEN P[j] ELSE R[j].p],
-        m |-> Concat([j \in Server \ {i} |-> R[j].m], Server \ {i})]
+(* raft.go bcastAppend: sendAppend (sendIfEmpty) to every peer that has a Progress (tracker.Visit, in id order), i.e. to *)
+(* the voters V of the sender's configuration; returns new progress map and messages                                     *)
+Bcast(i, lg, cmt, tm, P, V) ==
+    LET R == [j \in V \ {i} |-> MaybeSendApp(i, lg, cmt, tm, P[j], j, TRUE)]
+    IN [P |-> [j \in Server |-> IF j \in V \ {i} THEN R[j].p ELSE P[j]],
+        m |-> Concat([j \in V \ {i} |-> R[j].m], V \ {i})]
 
-(* quorum/majority.go CommittedIndex over Match *)
-Mci(P) == Max({x \in {P[j].match : j \in Server} \cup {0} : Cardinality({j \in Server : P[j].match >= x}) >= Quorum})
-MaybeCommit(lg, cmt, tm, P) ==
-    LET mci == Mci(P) IN IF mci > cmt /\ (W_CommitAnyTerm \/ TermAt(lg, mci) = tm) THEN mci ELSE cmt
+(* switchToConfig 1704-1709: maybeSendAppend(id, false) to every peer of the configuration *)
+SendPending(i, lg, cmt, tm, P, V) ==
+    LET R == [j \in V \ {i} |-> MaybeSendApp(i, lg, cmt, tm, P[j], j, FALSE)]
+    IN [P |-> [j \in Server |-> IF j \in V \ {i} THEN R[j].p ELSE P[j]],
+        m |-> Concat([j \in V \ {i} |-> R[j].m], V \ {i})]
+
+(* quorum/majority.go CommittedIndex over Match of the voters V (tracker.Committed: r.prs.Voters, the leader's OWN *)
+(* current configuration, which need not contain the leader)                                                        *)
+Mci(P, V) == Max({x \in {P[j].match : j \in V} \cup {0} : Cardinality({j \in V : P[j].match >= x}) >= QuorumOf(V)})
+MaybeCommit(lg, cmt, tm, P, V) ==
+    LET mci == Mci(P, V) IN IF mci > cmt /\ (W_CommitAnyTerm \/ TermAt(lg, mci) = tm) THEN mci ELSE cmt
 
 (* stepLeader MsgAppResp, not rejected; j = i is the leader's own acknowledgement from advance().     *)
 (* Returns [P, c, m].                                                                                   *)
-AckOK(i, j, idx, lg, cmt, tm, P) ==
+AckOK(i, j, idx, lg, cmt, tm, P, V) ==
+    IF j \notin V THEN [P |-> P, c |-> cmt, m |-> <<>>]      \* stepLeader 1109-1113: no Progress for m.From (a leader that removed itself)
+    ELSE
     LET p0 == P[j]
         oldPaused == IsPaused(p0)
         updated == p0.match < idx
@@ -192,19 +257,63 @@ AckOK(i, j, idx, lg, cmt, tm, P) ==
     IN IF ~updated THEN [P |-> [P EXCEPT ![j] = p1], c |-> cmt, m |-> <<>>]
        ELSE LET p2 == IF p1.state = Probe THEN [p1 EXCEPT !.state = Replicate, !.next = p1.match + 1, !.probesent = FALSE] ELSE p1
                 P2 == [P EXCEPT ![j] = p2]
-                c2 == MaybeCommit(lg, cmt, tm, P2)
-                r1 == IF c2 > cmt THEN Bcast(i, lg, c2, tm, P2)
+                c2 == MaybeCommit(lg, cmt, tm, P2, V)
+                r1 == IF c2 > cmt THEN Bcast(i, lg, c2, tm, P2, V)
                       ELSE IF oldPaused /\ j # i
                            THEN LET s == MaybeSendApp(i, lg, c2, tm, P2[j], j, TRUE) IN [P |-> [P2 EXCEPT ![j] = s.p], m |-> s.m]
                            ELSE [P |-> P2, m |-> <<>>]
                 r2 == IF j = i THEN [p |-> r1.P[j], m |-> <<>>] ELSE LoopSend(i, lg, c2, tm, r1.P[j], j)
             IN [P |-> [r1.P EXCEPT ![j] = r2.p], c |-> c2, m |-> r1.m \o r2.m]
 
+(* ------------------------- configuration changes ----------------------- *)
+(* An entry is [t, p, c]: c = 0 a normal entry (EntryNormal), c = j > 0 EntryConfChange{ConfChangeAddNode, j},      *)
+(* c = -j EntryConfChange{ConfChangeRemoveNode, j}.                                                                   *)
+(* confchange.go Simple 132-149 / apply 154-178 for one change: makeVoter 182-193 (a voter that is already there      *)
+(* stays), remove 235-248 (an absent id: nothing); "removed all voters" 174-176 is an error: applyConfChange panics    *)
+(* before it switches (raft.go 1651-1654), raftsim's applyCC treats that as "the application rejects the change" and   *)
+(* the configuration stays.                                                                                            *)
+CCRejected(V, c) == c < 0 /\ V \ {-c} = {}
+ApplyCC(V, c) == IF c = 0 \/ CCRejected(V, c) THEN V ELSE IF c > 0 THEN V \cup {c} ELSE V \ {-c}
+RECURSIVE ConfFold(_, _, _, _)
+ConfFold(V, lg, lo, hi) == IF lo > hi THEN V ELSE ConfFold(ApplyCC(V, lg[lo].c), lg, lo + 1, hi)
+(* the configuration of a node that is not leader after its commit (= applied) index moved to c: the Ready cycle hands *)
+(* the newly committed entries to the application, which calls ApplyConfChange for each conf change; switchToConfig   *)
+(* 1690-1694 does nothing more on a non-leader                                                                         *)
+FV(i, lg, c) == ConfFold(cfg[i], lg, commit[i] + 1, c)
+(* after a restart: newRaft 346-353 restores the ConfState of Storage.InitialState - raftsim's disk answers with the   *)
+(* genesis configuration while there is no snapshot (sim.go disk.InitialState) - and Config.Applied = 0, so the first  *)
+(* Ready re-applies every committed entry                                                                              *)
+ConfAt(lg, c) == ConfFold(InitVoters, lg, 1, c)
+
+(* The leader's Ready cycle after its commit index moved from `done` to a.c (a = [P, c, m] as returned by AckOK):      *)
+(* every conf change in the newly committed entries is applied in index order (raftsim ready(): ApplyConfChange ->     *)
+(* applyConfChange 1637-1657 -> switchToConfig 1665-1717).  On the leader: a new voter gets Progress{Match 0, Next =    *)
+(* LastIndex, StateProbe} (confchange.go initProgress 251-277; LastIndex = raftLog.lastIndex() at apply time, 1641),   *)
+(* a removed one loses it; if the leader itself is gone it just carries on as leader without Progress (1677-1688);     *)
+(* otherwise maybeCommit under the NEW configuration and bcastAppend (1696-1700), or else maybeSendAppend(id, false)   *)
+(* to every peer (1701-1710).  What that commits is applied by the next round of the same Ready loop.                  *)
+RECURSIVE LeaderApplyFrom(_, _, _, _, _, _, _, _)
+LeaderApplyFrom(i, lg, tm, k, cmt, P, V, ms) ==
+    IF k > cmt THEN [P |-> P, c |-> cmt, m |-> ms, V |-> V]
+    ELSE LET c == lg[k].c
+         IN IF c = 0 \/ CCRejected(V, c) THEN LeaderApplyFrom(i, lg, tm, k + 1, cmt, P, V, ms)
+            ELSE LET V2 == ApplyCC(V, c)
+                     P2 == [j \in Server |->
+                              IF j \in V2 \ V THEN [match |-> IF W_AddedVoterCaughtUp THEN Len(lg) ELSE 0,
+                                                   next |-> Len(lg),
+                                                   state |-> Probe, probesent |-> FALSE]
+                              ELSE IF j \in V \ V2 THEN NoPrE ELSE P[j]]
+                 IN IF i \notin V2 THEN LeaderApplyFrom(i, lg, tm, k + 1, cmt, P2, V2, ms)
+                    ELSE LET c2 == MaybeCommit(lg, cmt, tm, P2, V2)
+                             b == IF c2 > cmt THEN Bcast(i, lg, c2, tm, P2, V2) ELSE SendPending(i, lg, cmt, tm, P2, V2)
+                         IN LeaderApplyFrom(i, lg, tm, k + 1, c2, b.P, V2, ms \o b.m)
+LeaderApply(i, lg, tm, a) == LeaderApplyFrom(i, lg, tm, commit[i] + 1, a.c, a.P, cfg[i], a.m)
+
 (* ------------------------- committing a step --------------------------- *)
 (* All per-node effects of an action on node i, including the Ready cycle: *)
 (* HardState persisted (synced iff MustSync: entries written or term/vote  *)
 (* changed), applied = commit.                                             *)
-Update(i, r, t, v, ld, lg, c, vts, P, wrote) ==
+Update(i, r, t, v, ld, lg, c, vts, P, wrote, V, pc) ==
     /\ role' = [role EXCEPT ![i] = r]
     /\ term' = [term EXCEPT ![i] = t]
     /\ vote' = [vote EXCEPT ![i] = v]
@@ -213,9 +322,13 @@ Update(i, r, t, v, ld, lg, c, vts, P, wrote) ==
     /\ commit' = [commit EXCEPT ![i] = c]
     /\ applied' = [applied EXCEPT ![i] = c]
     /\ hs' = [hs EXCEPT ![i] = [term |-> t, vote |-> IF W_NoPersistVote THEN 0 ELSE v, commit |-> c]]
-    /\ sc' = [sc EXCEPT ![i] = IF wrote \/ t # term[i] \/ v # vote[i] THEN c ELSE @]
+    \* a leader writes only its own entries (proposal, empty entry of becomeLeader): they are synced by the first Ready, with the
+    \* commit index as it was; what its own acknowledgement in advance() commits (a quorum of one) is a later, commit-only write
+    /\ sc' = [sc EXCEPT ![i] = IF wrote \/ t # term[i] \/ v # vote[i] THEN (IF r = "L" THEN commit[i] ELSE c) ELSE @]
     /\ votes' = [votes EXCEPT ![i] = vts]
     /\ pr' = [pr EXCEPT ![i] = IF r = "L" THEN P ELSE NoPr]
+    /\ cfg' = [cfg EXCEPT ![i] = V]
+    /\ pci' = [pci EXCEPT ![i] = IF r = "L" THEN pc ELSE 0]
     /\ gc' = IF c > Len(gc) THEN SubSeq(lg, 1, c) ELSE gc
     /\ gct' = IF c > Len(gc) THEN gct \o [k \in 1..(c - Len(gc)) |-> t] ELSE gct
     /\ Len(lg) <= MaxLog
@@ -226,7 +339,7 @@ Hist(i, r, t, lg) ==
              THEN lcok /\ \A k \in 1..Len(gc) : gct[k] < t => (k <= Len(lg) /\ lg[k] = gc[k])
              ELSE lcok
 
-Budgets == UNCHANGED <<nprop, ncrash, ndrop, ndup, nhb>>
+Budgets == UNCHANGED <<nprop, ncrash, ndrop, ndup, nhb, nconf, nref>>
 
 Up(i) == role[i] # "D"
 
@@ -243,62 +356,101 @@ Init ==
     /\ sc = [i \in Server |-> 0]
     /\ votes = [i \in Server |-> NoVotes]
     /\ pr = [i \in Server |-> NoPr]
+    /\ cfg = [i \in Server |-> InitVoters]
+    /\ pci = [i \in Server |-> 0]
     /\ net = <<>>
-    /\ nprop = 0 /\ ncrash = 0 /\ ndrop = 0 /\ ndup = 0 /\ nhb = 0
+    /\ nprop = 0 /\ ncrash = 0 /\ ndrop = 0 /\ ndup = 0 /\ nhb = 0 /\ nconf = 0 /\ nref = 0
     /\ elected = {} /\ gc = <<>> /\ gct = <<>> /\ lcok = TRUE
     /\ act = [name |-> "Init"]
 
-(* campaign 831-852: one request per other voter, in id order, carrying the sender's last index / last term *)
+(* campaign 831-852: one request per other voter of the sender's configuration, in id order, carrying the sender's last index / last term *)
 VoteReqs(i, ty, t) ==
-    Concat([j \in Server \ {i} |-> <<Msg(ty, i, j, t, Len(log[i]), LastTerm(log[i]), 0, FALSE, 0, <<>>)>>], Server \ {i})
+    Concat([j \in cfg[i] \ {i} |-> <<Msg(ty, i, j, t, Len(log[i]), LastTerm(log[i]), 0, FALSE, 0, <<>>)>>], cfg[i] \ {i})
+
+(* becomeLeader 738-776 (reset: a fresh Progress for every id of the configuration; pendingConfIndex = the last index   *)
+(* BEFORE the empty entry, 758-763) + bcastAppend + the leader's own ack in advance() + the rest of the Ready cycle        *)
+LeaderStart(i, t, lg0, cmt) ==
+    LET lg == Append(lg0, [t |-> t, p |-> 0, c |-> 0])
+        P0 == [j \in Server |-> IF j \notin cfg[i] THEN NoPrE
+                                ELSE [match |-> IF j = i THEN Len(lg0) ELSE 0, next |-> Len(lg0) + 1,
+                                      state |-> IF j = i THEN Replicate ELSE Probe, probesent |-> FALSE]]
+        b == Bcast(i, lg, cmt, t, P0, cfg[i])
+        a == AckOK(i, i, Len(lg), lg, cmt, t, b.P, cfg[i])
+        f == LeaderApply(i, lg, t, [P |-> a.P, c |-> a.c, m |-> b.m \o a.m])
+    IN [lg |-> lg, P |-> f.P, c |-> f.c, m |-> f.m, V |-> f.V, pc |-> Len(lg0)]
 
 (* RawNode.Campaign(): MsgHup -> Step 941-946 -> hup -> campaign(campaignElection), or, with PreVote,                 *)
 (* campaign(campaignPreElection): becomePreCandidate 722-736 changes state ("P"), the vote tally (ResetVotes + own     *)
 (* pre-vote by poll 821) and lead (None) but NOT Term and NOT Vote; the MsgPreVote requests carry Term + 1 (815).      *)
-(* Nothing of the HardState changes, so nothing is persisted.  (A quorum of one - the `res == VoteWon` shortcut at     *)
-(* 821-830 - needs a single-voter configuration: excluded by N >= 2.)  A pre-candidate or candidate may campaign again. *)
+(* Nothing of the HardState changes, so nothing is persisted.  A pre-candidate or candidate may campaign again.        *)
+(* hup 784-787: a node that is not promotable() 1632-1635 - it has no Progress, i.e. it is not a voter of its OWN      *)
+(* current configuration - does not campaign (Campaign() returns nil and nothing happens).  (The other refusal of hup, *)
+(* 788-795 "pending configuration changes to apply", needs applied < committed: never at this granularity.)            *)
+(* A quorum of one (the node is the only voter of its configuration; reachable only by removals): the                  *)
+(* `res == VoteWon` shortcut 821-830 - pre-candidate -> candidate of term + 1 -> leader inside the same call.          *)
 Campaign(i) ==
     /\ i \in Campaigners /\ Up(i) /\ role[i] # "L" /\ term[i] < MaxTerm
-    /\ IF PreVote
-       THEN /\ Update(i, "P", term[i], vote[i], 0, log[i], commit[i], [NoVotes EXCEPT ![i] = "y"], NoPr, FALSE)
+    /\ i \in cfg[i]
+    /\ IF cfg[i] = {i}
+       THEN LET t == term[i] + 1
+                s == LeaderStart(i, t, log[i], commit[i])
+            IN /\ Update(i, "L", t, i, i, s.lg, s.c, NoVotes, s.P, TRUE, s.V, s.pc)
+               /\ Hist(i, "L", t, s.lg)
+               /\ SendSome(net, s.m, [name |-> "Campaign", i |-> i])
+       ELSE IF PreVote
+       THEN /\ Update(i, "P", term[i], vote[i], 0, log[i], commit[i], [NoVotes EXCEPT ![i] = "y"], NoPr, FALSE, cfg[i], 0)
             /\ Hist(i, "P", term[i], log[i])
             /\ SendSome(net, VoteReqs(i, "PreVote", term[i] + 1), [name |-> "Campaign", i |-> i])
        ELSE LET t == term[i] + 1
-            IN /\ Update(i, "C", t, i, 0, log[i], commit[i], [NoVotes EXCEPT ![i] = "y"], NoPr, FALSE)
+            IN /\ Update(i, "C", t, i, 0, log[i], commit[i], [NoVotes EXCEPT ![i] = "y"], NoPr, FALSE, cfg[i], 0)
                /\ Hist(i, "C", t, log[i])
                /\ SendSome(net, VoteReqs(i, "Vote", t), [name |-> "Campaign", i |-> i])
     /\ Budgets
 
-(* becomeLeader + bcastAppend + the leader's own ack in advance() *)
-LeaderStart(i, t, lg0, cmt) ==
-    LET lg == Append(lg0, [t |-> t, p |-> 0])
-        P0 == [j \in Server |-> [match |-> IF j = i THEN Len(lg0) ELSE 0, next |-> Len(lg0) + 1,
-                                 state |-> IF j = i THEN Replicate ELSE Probe, probesent |-> FALSE]]
-        b == Bcast(i, lg, cmt, t, P0)
-        a == AckOK(i, i, Len(lg), lg, cmt, t, b.P)
-    IN [lg |-> lg, P |-> a.P, c |-> a.c, m |-> b.m \o a.m]
+(* stepLeader MsgProp 1028-1086 after the entry was chosen: appendEntry + bcastAppend, then the Ready cycle (entry        *)
+(* persisted, the leader's own ack in advance(), whatever that commits applied).  A leader that removed itself from the   *)
+(* configuration drops every proposal (1032-1037, ErrProposalDropped): guard i \in cfg[i].                               *)
+AppendProposal(i, e, pc, a0) ==
+    LET lg == Append(log[i], e)
+        b == Bcast(i, lg, commit[i], term[i], pr[i], cfg[i])
+        a == AckOK(i, i, Len(lg), lg, commit[i], term[i], b.P, cfg[i])
+        f == LeaderApply(i, lg, term[i], [P |-> a.P, c |-> a.c, m |-> b.m \o a.m])
+    IN /\ Update(i, "L", term[i], vote[i], lead[i], lg, f.c, votes[i], f.P, TRUE, f.V, pc)
+       /\ Hist(i, "L", term[i], lg)
+       /\ SendSome(net, f.m, a0)
 
 (* RawNode.Propose on the leader *)
 Propose(i, v) ==
-    /\ role[i] = "L" /\ nprop < MaxProposals
-    /\ LET lg == Append(log[i], [t |-> term[i], p |-> v])
-           b == Bcast(i, lg, commit[i], term[i], pr[i])
-           a == AckOK(i, i, Len(lg), lg, commit[i], term[i], b.P)
-       IN /\ Update(i, "L", term[i], vote[i], lead[i], lg, a.c, votes[i], a.P, TRUE)
-          /\ Hist(i, "L", term[i], lg)
-          /\ SendSome(net, b.m \o a.m, [name |-> "Propose", i |-> i, v |-> v])
+    /\ role[i] = "L" /\ nprop < MaxProposals /\ i \in cfg[i]
+    /\ AppendProposal(i, [t |-> term[i], p |-> v, c |-> 0], pci[i], [name |-> "Propose", i |-> i, v |-> v])
     /\ nprop' = nprop + 1
-    /\ UNCHANGED <<ncrash, ndrop, ndup, nhb>>
+    /\ UNCHANGED <<ncrash, ndrop, ndup, nhb, nconf, nref>>
 
-(* RawNode.Tick on the leader with HeartbeatTick = 1: MsgBeat -> bcastHeartbeat *)
+(* RawNode.ProposeConfChange(raftpb.ConfChange{Type, NodeID}) on the leader: rawnode.go 93-99 -> stepLeader MsgProp.   *)
+(* 1060-1078: with `alreadyPending` (pendingConfIndex > applied: a conf change that may not have been applied yet) the  *)
+(* entry is REPLACED by an empty normal entry (1073-1075) and appended all the same; otherwise pendingConfIndex = the   *)
+(* index the entry gets.  (alreadyJoint / wantsLeaveJoint 1061-1071: no joint configurations and no empty changes in    *)
+(* this module.)  The change is not validated here; what it does is decided when the entry is applied.                 *)
+ProposeConfChange(i, ch, v) ==
+    /\ ConfChange /\ role[i] = "L" /\ i \in cfg[i]
+    /\ LET refused == ~W_ConfChangeNoPendingCheck /\ pci[i] > applied[i]
+       IN /\ IF refused THEN nref < MaxConfRefusals ELSE nconf < MaxConfChanges
+          /\ nconf' = IF refused THEN nconf ELSE nconf + 1
+          /\ nref' = IF refused THEN nref + 1 ELSE nref
+          /\ AppendProposal(i, IF refused THEN [t |-> term[i], p |-> 0, c |-> 0] ELSE [t |-> term[i], p |-> v, c |-> ch],
+                            IF refused THEN pci[i] ELSE Len(log[i]) + 1,
+                            [name |-> "ProposeConfChange", i |-> i, v |-> v, ch |-> ch])
+    /\ UNCHANGED <<nprop, ncrash, ndrop, ndup, nhb>>
+
+(* RawNode.Tick on the leader with HeartbeatTick = 1: MsgBeat -> bcastHeartbeat (to every id with a Progress) *)
 Heartbeat(i) ==
     /\ role[i] = "L" /\ nhb < MaxHeartbeats
-    /\ LET ms == Concat([j \in Server \ {i} |->
+    /\ LET ms == Concat([j \in cfg[i] \ {i} |->
                     <<Msg("HB", i, j, term[i], 0, 0,
-                          IF W_HeartbeatCommitUnbounded THEN commit[i] ELSE Min2(pr[i][j].match, commit[i]), FALSE, 0, <<>>)>>], Server \ {i})
+                          IF W_HeartbeatCommitUnbounded THEN commit[i] ELSE Min2(pr[i][j].match, commit[i]), FALSE, 0, <<>>)>>], cfg[i] \ {i})
        IN SendSome(net, ms, [name |-> "Heartbeat", i |-> i])
     /\ nhb' = nhb + 1
-    /\ UNCHANGED <<nodeVars, nprop, ncrash, ndrop, ndup, elected, gc, gct, lcok>>
+    /\ UNCHANGED <<nodeVars, nprop, ncrash, ndrop, ndup, nconf, nref, elected, gc, gct, lcok>>
 
 (* Step prologue (raft.go 867-938): state of m.to after the term comparison, for m.tm >= term.                      *)
 (* A higher term makes the receiver a follower of that term (882-899) EXCEPT for MsgPreVote ("never change our term   *)
@@ -340,7 +492,7 @@ DeliverVote(m) ==
            canVote == W_VoteIgnoreVoted \/ V0(m) = m.fr \/ (V0(m) = 0 /\ L0(m) = 0) \/ (pre /\ m.tm > T0(m))
            grant == canVote /\ (W_VoteIgnoreLog \/ IsUpToDate(log[i], m.ix, m.lt))
        IN /\ Update(i, R0(m), T0(m), IF grant /\ ~pre THEN m.fr ELSE V0(m), L0(m), log[i], commit[i],
-                    IF R0(m) = role[i] THEN votes[i] ELSE NoVotes, pr[i], FALSE)
+                    IF R0(m) = role[i] THEN votes[i] ELSE NoVotes, pr[i], FALSE, cfg[i], pci[i])
           /\ Hist(i, R0(m), T0(m), log[i])
           /\ Finish(m, <<Msg(IF pre THEN "PreVoteResp" ELSE "VoteResp", i, m.fr, IF grant THEN m.tm ELSE T0(m), 0, 0, 0, ~grant, 0, <<>>)>>)
 
@@ -354,35 +506,37 @@ DeliverVote(m) ==
 (* reuse r.Term").  Note that a pre-candidate also counts a granted MsgPreVoteResp of an earlier pre-candidacy of its *)
 (* own (same or future term): the library does not distinguish them either.                                          *)
 DeliverVoteResp(m) ==
-    /\ Receivable(m) /\ m.ty \in {"VoteResp", "PreVoteResp"} /\ m.tm >= term[m.to]
+    /\ Receivable(m) /\ m.ty \in {"VoteResp", "PreVoteResp"} /\ m.tm >= term[m.to] /\ m.fr \in cfg[m.to]
     /\ LET i == m.to
            mine == \/ R0(m) = "C" /\ m.ty = "VoteResp"
                    \/ R0(m) = "P" /\ m.ty = "PreVoteResp"
                    \/ W_PreVoteRespCountsAsVote /\ R0(m) \in {"C", "P"}
        IN IF ~mine
           THEN \* ignored (after a possible step-down by the prologue)
-               /\ Update(i, R0(m), T0(m), V0(m), L0(m), log[i], commit[i], IF R0(m) = role[i] THEN votes[i] ELSE NoVotes, pr[i], FALSE)
+               /\ Update(i, R0(m), T0(m), V0(m), L0(m), log[i], commit[i], IF R0(m) = role[i] THEN votes[i] ELSE NoVotes, pr[i], FALSE, cfg[i], pci[i])
                /\ Hist(i, R0(m), T0(m), log[i])
                /\ Finish(m, <<>>)
           ELSE \* R0(m) \in {"C", "P"}: the prologue changed nothing
                LET vts == IF votes[i][m.fr] = "n" THEN [votes[i] EXCEPT ![m.fr] = IF m.rj THEN "r" ELSE "y"] ELSE votes[i]
-                   yes == Cardinality({j \in Server : vts[j] = "y"})
-                   no == Cardinality({j \in Server : vts[j] = "r"})
+                   \* tracker.TallyVotes 267-288 -> quorum/majority.go VoteResult 178-207 over the voters of i's configuration
+                   yes == Cardinality({j \in cfg[i] : vts[j] = "y"})
+                   no == Cardinality({j \in cfg[i] : vts[j] = "r"})
+                   Quorum == QuorumOf(cfg[i])
                IN IF yes >= Quorum /\ role[i] = "P"
                   THEN LET t == term[i] + 1
-                       IN /\ Update(i, "C", t, i, 0, log[i], commit[i], [NoVotes EXCEPT ![i] = "y"], NoPr, FALSE)
+                       IN /\ Update(i, "C", t, i, 0, log[i], commit[i], [NoVotes EXCEPT ![i] = "y"], NoPr, FALSE, cfg[i], 0)
                           /\ Hist(i, "C", t, log[i])
                           /\ Finish(m, VoteReqs(i, "Vote", t))
                   ELSE IF yes >= Quorum
                   THEN LET s == LeaderStart(i, term[i], log[i], commit[i])
-                       IN /\ Update(i, "L", term[i], vote[i], i, s.lg, s.c, NoVotes, s.P, TRUE)
+                       IN /\ Update(i, "L", term[i], vote[i], i, s.lg, s.c, NoVotes, s.P, TRUE, s.V, s.pc)
                           /\ Hist(i, "L", term[i], s.lg)
                           /\ Finish(m, s.m)
-                  ELSE IF N - no < Quorum
-                  THEN /\ Update(i, "F", term[i], vote[i], 0, log[i], commit[i], NoVotes, NoPr, FALSE)
+                  ELSE IF Cardinality(cfg[i]) - no < Quorum
+                  THEN /\ Update(i, "F", term[i], vote[i], 0, log[i], commit[i], NoVotes, NoPr, FALSE, cfg[i], 0)
                        /\ Hist(i, "F", term[i], log[i])
                        /\ Finish(m, <<>>)
-                  ELSE /\ Update(i, role[i], term[i], vote[i], lead[i], log[i], commit[i], vts, NoPr, FALSE)
+                  ELSE /\ Update(i, role[i], term[i], vote[i], lead[i], log[i], commit[i], vts, NoPr, FALSE, cfg[i], 0)
                        /\ Hist(i, role[i], term[i], log[i])
                        /\ Finish(m, <<>>)
 
@@ -395,7 +549,7 @@ DeliverApp(m) ==
           THEN /\ UNCHANGED <<nodeVars, elected, gc, gct, lcok>>
                /\ Finish(m, <<>>)
           ELSE IF m.ix < commit[i]
-          THEN /\ Update(i, "F", T0(m), V0(m), m.fr, lg, commit[i], NoVotes, NoPr, FALSE)
+          THEN /\ Update(i, "F", T0(m), V0(m), m.fr, lg, commit[i], NoVotes, NoPr, FALSE, cfg[i], 0)
                /\ Hist(i, "F", T0(m), lg)
                /\ Finish(m, <<Msg("AppResp", i, m.fr, T0(m), commit[i], 0, 0, FALSE, 0, <<>>)>>)
           ELSE IF TermAt(lg, m.ix) = m.lt
@@ -407,26 +561,26 @@ DeliverApp(m) ==
                           ELSE SubSeq(lg, 1, ci - 1) \o SubSeq(m.es, ci - m.ix, Len(m.es))
                    c2 == Max2(commit[i], Min2(m.cm, lastnew))
                IN /\ (ci = 0 \/ ci > commit[i])      \* otherwise the library panics; unreachable in the faithful spec
-                  /\ Update(i, "F", T0(m), V0(m), m.fr, lg2, c2, NoVotes, NoPr, trunc \/ ci # 0)
+                  /\ Update(i, "F", T0(m), V0(m), m.fr, lg2, c2, NoVotes, NoPr, trunc \/ ci # 0, FV(i, lg2, c2), 0)
                   /\ Hist(i, "F", T0(m), lg2)
                   /\ Finish(m, <<Msg("AppResp", i, m.fr, T0(m), lastnew, 0, 0, FALSE, 0, <<>>)>>)
           ELSE LET hint == FindConflictByTerm(lg, Min2(m.ix, Len(lg)), m.lt)
-               IN /\ Update(i, "F", T0(m), V0(m), m.fr, lg, commit[i], NoVotes, NoPr, FALSE)
+               IN /\ Update(i, "F", T0(m), V0(m), m.fr, lg, commit[i], NoVotes, NoPr, FALSE, cfg[i], 0)
                   /\ Hist(i, "F", T0(m), lg)
                   /\ Finish(m, <<Msg("AppResp", i, m.fr, T0(m), m.ix, TermAt(lg, hint), 0, TRUE, hint, <<>>)>>)
 
 DeliverAppResp(m) ==
-    /\ Receivable(m) /\ m.ty = "AppResp" /\ m.tm >= term[m.to]
+    /\ Receivable(m) /\ m.ty = "AppResp" /\ m.tm >= term[m.to] /\ m.fr \in cfg[m.to]
     /\ LET i == m.to
            j == m.fr
            lg == log[i]
        IN IF R0(m) # "L"
-          THEN /\ Update(i, R0(m), T0(m), V0(m), L0(m), lg, commit[i], IF R0(m) = role[i] THEN votes[i] ELSE NoVotes, NoPr, FALSE)
+          THEN /\ Update(i, R0(m), T0(m), V0(m), L0(m), lg, commit[i], IF R0(m) = role[i] THEN votes[i] ELSE NoVotes, NoPr, FALSE, cfg[i], 0)
                /\ Hist(i, R0(m), T0(m), lg)
                /\ Finish(m, <<>>)
           ELSE IF ~m.rj
-          THEN LET a == AckOK(i, j, m.ix, lg, commit[i], term[i], pr[i])
-               IN /\ Update(i, "L", term[i], vote[i], lead[i], lg, a.c, votes[i], a.P, FALSE)
+          THEN LET a == LeaderApply(i, lg, term[i], AckOK(i, j, m.ix, lg, commit[i], term[i], pr[i], cfg[i]))
+               IN /\ Update(i, "L", term[i], vote[i], lead[i], lg, a.c, votes[i], a.P, FALSE, a.V, pci[i])
                   /\ Hist(i, "L", term[i], lg)
                   /\ Finish(m, a.m)
           ELSE LET p0 == pr[i][j]
@@ -439,7 +593,7 @@ DeliverAppResp(m) ==
                IN IF ~decr
                   THEN /\ UNCHANGED <<nodeVars, elected, gc, gct, lcok>>
                        /\ Finish(m, <<>>)
-                  ELSE /\ Update(i, "L", term[i], vote[i], lead[i], lg, commit[i], votes[i], [pr[i] EXCEPT ![j] = s.p], FALSE)
+                  ELSE /\ Update(i, "L", term[i], vote[i], lead[i], lg, commit[i], votes[i], [pr[i] EXCEPT ![j] = s.p], FALSE, cfg[i], pci[i])
                        /\ Hist(i, "L", term[i], lg)
                        /\ Finish(m, s.m)
 
@@ -450,36 +604,43 @@ DeliverHB(m) ==
           THEN /\ UNCHANGED <<nodeVars, elected, gc, gct, lcok>>
                /\ Finish(m, <<>>)
           ELSE /\ m.cm <= Len(log[i])           \* otherwise the library panics; unreachable in the faithful spec
-               /\ Update(i, "F", T0(m), V0(m), m.fr, log[i], Max2(commit[i], m.cm), NoVotes, NoPr, FALSE)
+               /\ Update(i, "F", T0(m), V0(m), m.fr, log[i], Max2(commit[i], m.cm), NoVotes, NoPr, FALSE, FV(i, log[i], Max2(commit[i], m.cm)), 0)
                /\ Hist(i, "F", T0(m), log[i])
                /\ Finish(m, <<Msg("HBResp", i, m.fr, T0(m), 0, 0, 0, FALSE, 0, <<>>)>>)
 
 DeliverHBResp(m) ==
-    /\ Receivable(m) /\ m.ty = "HBResp" /\ m.tm >= term[m.to]
+    /\ Receivable(m) /\ m.ty = "HBResp" /\ m.tm >= term[m.to] /\ m.fr \in cfg[m.to]
     /\ LET i == m.to
            j == m.fr
        IN IF R0(m) # "L"
-          THEN /\ Update(i, R0(m), T0(m), V0(m), L0(m), log[i], commit[i], IF R0(m) = role[i] THEN votes[i] ELSE NoVotes, NoPr, FALSE)
+          THEN /\ Update(i, R0(m), T0(m), V0(m), L0(m), log[i], commit[i], IF R0(m) = role[i] THEN votes[i] ELSE NoVotes, NoPr, FALSE, cfg[i], 0)
                /\ Hist(i, R0(m), T0(m), log[i])
                /\ Finish(m, <<>>)
           ELSE LET p1 == [pr[i][j] EXCEPT !.probesent = FALSE]
                    s == IF p1.match < Len(log[i]) THEN MaybeSendApp(i, log[i], commit[i], term[i], p1, j, TRUE) ELSE [p |-> p1, m |-> <<>>]
-               IN /\ Update(i, "L", term[i], vote[i], lead[i], log[i], commit[i], votes[i], [pr[i] EXCEPT ![j] = s.p], FALSE)
+               IN /\ Update(i, "L", term[i], vote[i], lead[i], log[i], commit[i], votes[i], [pr[i] EXCEPT ![j] = s.p], FALSE, cfg[i], pci[i])
                   /\ Hist(i, "L", term[i], log[i])
                   /\ Finish(m, s.m)
+
+(* RawNode.Step 110-119: a RESPONSE message (IsResponseMsg, util.go 48-50) from an id that has no Progress in the       *)
+(* receiver's configuration is refused (ErrStepPeerNotFound) before raft.Step sees it - not even its term is looked at. *)
+DeliverUnknownPeer(m) ==
+    /\ Receivable(m) /\ m.ty \in {"VoteResp", "PreVoteResp", "AppResp", "HBResp"} /\ m.tm >= term[m.to] /\ m.fr \notin cfg[m.to]
+    /\ UNCHANGED <<nodeVars, elected, gc, gct, lcok>>
+    /\ Finish(m, <<>>)
 
 Drop(m) ==
     /\ m \in DOMAIN net /\ ndrop < MaxDrops
     /\ net' = BagDel(net, m)
     /\ ndrop' = ndrop + 1
-    /\ UNCHANGED <<nodeVars, nprop, ncrash, ndup, nhb, elected, gc, gct, lcok>>
+    /\ UNCHANGED <<nodeVars, nprop, ncrash, ndup, nhb, nconf, nref, elected, gc, gct, lcok>>
     /\ act' = [name |-> "Drop", m |-> m]
 
 Dup(m) ==
     /\ m \in DOMAIN net /\ ndup < MaxDups /\ net[m] = 1
     /\ net' = BagAdd(net, m)
     /\ ndup' = ndup + 1
-    /\ UNCHANGED <<nodeVars, nprop, ncrash, ndrop, nhb, elected, gc, gct, lcok>>
+    /\ UNCHANGED <<nodeVars, nprop, ncrash, ndrop, nhb, nconf, nref, elected, gc, gct, lcok>>
     /\ act' = [name |-> "Dup", m |-> m]
 
 (* Crash: everything volatile is lost; the commit-only HardState written since the last synced write *)
@@ -497,26 +658,31 @@ CrashTo(i, c) ==
           /\ sc' = [sc EXCEPT ![i] = c]
           /\ votes' = [votes EXCEPT ![i] = NoVotes]
           /\ pr' = [pr EXCEPT ![i] = NoPr]
+          /\ pci' = [pci EXCEPT ![i] = 0]
+          \* what the restarted node will rebuild (see ConfAt); nothing looks at the configuration of a node that is down
+          /\ cfg' = [cfg EXCEPT ![i] = ConfAt(log[i], c)]
     /\ ncrash' = ncrash + 1
-    /\ UNCHANGED <<log, net, nprop, ndrop, ndup, nhb, elected, gc, gct, lcok>>
+    /\ UNCHANGED <<log, net, nprop, ndrop, ndup, nhb, nconf, nref, elected, gc, gct, lcok>>
 
 Crash(i, keep) ==
     /\ (keep = 0 => sc[i] # hs[i].commit)
     /\ CrashTo(i, IF keep = 1 THEN hs[i].commit ELSE sc[i])
     /\ act' = [name |-> "Crash", i |-> i, keep |-> keep]
 
-(* NewRawNode from storage (newRaft/loadState) + the Ready cycle applying the committed entries *)
+(* NewRawNode from storage (newRaft/loadState) + the Ready cycle applying the committed entries, conf changes included: *)
+(* the configuration is the genesis one with every committed conf change applied again (set at the crash: ConfAt)       *)
 Restart(i) ==
     /\ role[i] = "D"
     /\ role' = [role EXCEPT ![i] = "F"]
     /\ applied' = [applied EXCEPT ![i] = commit[i]]
-    /\ UNCHANGED <<term, vote, lead, log, commit, hs, sc, votes, pr, net, nprop, ncrash, ndrop, ndup, nhb, elected, gc, gct, lcok>>
+    /\ UNCHANGED <<term, vote, lead, log, commit, hs, sc, votes, pr, cfg, pci, net, nprop, ncrash, ndrop, ndup, nhb, nconf, nref, elected, gc, gct, lcok>>
     /\ act' = [name |-> "Restart", i |-> i]
 
 Next ==
     \/ \E i \in Server : Campaign(i) \/ Propose(i, nprop + 1) \/ Heartbeat(i) \/ Restart(i) \/ \E k \in {0, 1} : Crash(i, k)
+    \/ \E i \in Server, ch \in ConfChanges : ProposeConfChange(i, ch, 100 + nconf + nref + 1)
     \/ \E m \in DOMAIN net : \/ DeliverStale(m) \/ DeliverVote(m) \/ DeliverVoteResp(m) \/ DeliverApp(m)
-                             \/ DeliverAppResp(m) \/ DeliverHB(m) \/ DeliverHBResp(m) \/ Drop(m) \/ Dup(m)
+                             \/ DeliverAppResp(m) \/ DeliverHB(m) \/ DeliverHBResp(m) \/ DeliverUnknownPeer(m) \/ Drop(m) \/ Dup(m)
 
 Spec == Init /\ [][Next]_vars
 
